@@ -42,6 +42,15 @@ Proof.
   rewrite (eval_address_mono _ _ _ _ E). auto.
 Qed.
 
+(* #assert nodes report Unresolved before the last pass BY DESIGN (their condition is not even evaluated), so the
+   guessing pass that reproduces a resolved strict pass reports Unresolved exactly when the program has an #assert *)
+Definition is_assert (n : xnode) : bool := match n with XAssert _ => true | _ => false end.
+Definition has_assert (ns : list cnode) : bool := existsb (fun n => is_assert (fst n)) ns.
+Definition guess_res (a : bool) : resolution := if a then Unresolved else Resolved.
+
+Lemma merge_resolved_r a : merge a Resolved = a.
+Proof. destruct a; reflexivity. Qed.
+
 Section Agree.
 Variable m : Symbols.mgr.
 Variable banks : list Cursor.bank.
@@ -50,11 +59,11 @@ Variable mb : Z.
 
 Lemma resolve_node2_agree n ctx st b pos st' :
   resolve_node2 m defs mb true n ctx st b pos = Ok (st', Resolved) ->
-  resolve_node2 m defs mb false n ctx st b pos = Ok (st', Resolved).
+  resolve_node2 m defs mb false n ctx st b pos = Ok (st', guess_res (is_assert n)).
 Proof.
   intro H. unfold resolve_node2 in *. cbv zeta in *. cbn [negb] in *.
   pose proof (pvar2_mono m st ctx mb b pos) as Hpv.
-  destruct n as [s d0|s d0 e|i src|width d e|k e|k e|k e|bi].
+  destruct n as [s d0|s d0 e|i src|width d e|k e|k e|k e|bi|e]; cbn [is_assert guess_res].
   - destruct (Cursor.eval_address mb b pos false) as [a| |] eqn:E; try discriminate.
     rewrite (eval_address_mono _ _ _ _ E). exact H.
   - match type of H with match ?x with EOk _ => _ | EErr => _ end = _ => destruct x as [[v c]|] eqn:E; [|discriminate] end.
@@ -84,11 +93,14 @@ Proof.
     match type of H with match ?x with Ok _ => _ | Err => _ | Panic => _ end = _ => destruct x; try discriminate end.
     exact H.
   - exact H.
+  - (* #assert: resolved on the strict pass means the state is untouched; the guessing pass does not evaluate it *)
+    match type of H with match ?x with EOk _ => _ | EErr => _ end = _ => destruct x as [[v c]|]; [|discriminate] end.
+    destruct v as [| | | | |[|]|]; try discriminate. inversion H; subst. reflexivity.
 Qed.
 
 Lemma step2_agree nc st c prev st' c' prev' :
   step2 m banks defs mb true nc st c prev = Ok (st', Resolved, c', prev') ->
-  step2 m banks defs mb false nc st c prev = Ok (st', Resolved, c', prev').
+  step2 m banks defs mb false nc st c prev = Ok (st', guess_res (is_assert (fst nc)), c', prev').
 Proof.
   unfold step2. intro H.
   destruct (Cursor.advance mb banks c prev) as [c1| |]; try discriminate.
@@ -101,19 +113,50 @@ Qed.
 
 Lemma pass2_agree ns st c prev st' :
   pass2 m banks defs mb true ns st c prev Resolved = Ok (st', Resolved) ->
-  pass2 m banks defs mb false ns st c prev Resolved = Ok (st', Resolved).
+  forall acc, pass2 m banks defs mb false ns st c prev acc = Ok (st', merge acc (guess_res (has_assert ns))).
 Proof.
-  revert st c prev. induction ns as [|n ns IH]; intros st c prev H; cbn [pass2] in *; [exact H|].
-  destruct (step2 m banks defs mb true n st c prev) as [[[[s r] c'] p']| |] eqn:E; try discriminate.
-  destruct r.
-  - rewrite (step2_agree _ _ _ _ _ _ _ E). cbn [merge] in *. auto.
-  - cbn [merge] in H. exfalso. eapply pass2_unresolved_sticky; eauto.
+  revert st c prev. induction ns as [|n ns IH]; intros st c prev H acc; cbn [pass2] in *.
+  - destruct (Cursor.advance mb banks c prev); try discriminate. inversion H; subst.
+    cbn [has_assert existsb guess_res]. now rewrite merge_resolved_r.
+  - destruct (step2 m banks defs mb true n st c prev) as [[[[s r] c'] p']| |] eqn:E; try discriminate.
+    destruct r.
+    + rewrite (step2_agree _ _ _ _ _ _ _ E). cbn [merge] in H. rewrite (IH _ _ _ H).
+      f_equal. f_equal. cbn [has_assert existsb]. fold (has_assert ns).
+      destruct acc, (is_assert (fst n)), (has_assert ns); reflexivity.
+    + cbn [merge] in H. exfalso. eapply pass2_unresolved_sticky; eauto.
 Qed.
 
+(* mode agreement, exact form: the guessing pass from a state on which the strict pass is resolved leaves the same
+   state, and reports Resolved unless the program contains an #assert *)
 Lemma run_pass_agree ns st st' :
   run_pass m banks defs mb true ns st = Ok (st', Resolved) ->
+  run_pass m banks defs mb false ns st = Ok (st', guess_res (has_assert ns)).
+Proof. intro H. unfold run_pass. rewrite (pass2_agree _ _ _ _ _ H). destruct (has_assert ns); reflexivity. Qed.
+
+Lemma run_pass_agree_no_assert ns st st' : has_assert ns = false ->
+  run_pass m banks defs mb true ns st = Ok (st', Resolved) ->
   run_pass m banks defs mb false ns st = Ok (st', Resolved).
-Proof. apply pass2_agree. Qed.
+Proof. intros Ha H. rewrite (run_pass_agree _ _ _ H), Ha. reflexivity. Qed.
+
+(* a pass before the last one never reports Resolved when the program has an #assert *)
+Lemma pass2_guess_assert ns : has_assert ns = true -> forall st c prev acc st' r,
+  pass2 m banks defs mb false ns st c prev acc = Ok (st', r) -> r = Unresolved.
+Proof.
+  induction ns as [|n ns IH]; intros Ha st c prev acc st' r H; cbn [has_assert existsb] in Ha; [discriminate|].
+  cbn [pass2] in H.
+  destruct (step2 m banks defs mb false n st c prev) as [[[[s q] c'] p']| |] eqn:E; try discriminate.
+  destruct (is_assert (fst n)) eqn:A.
+  - assert (q = Unresolved).
+    { unfold step2 in E.
+      destruct (Cursor.advance mb banks c prev) as [c1| |]; try discriminate.
+      destruct (Cursor.enter mb banks c1 (shape (fst n))) as [c2| |]; try discriminate.
+      destruct (Cursor.cur_bank banks c2) as [[b pos]| |]; try discriminate.
+      destruct (fst n); try discriminate A. cbn in E. now inversion E. }
+    subst q. destruct r; [|reflexivity]. exfalso.
+    replace (merge acc Unresolved) with Unresolved in H by (destruct acc; reflexivity).
+    eapply pass2_unresolved_sticky; eauto.
+  - cbn [orb] in Ha. eapply IH; eauto.
+Qed.
 End Agree.
 
 (* ---- budget monotonicity ---- *)
@@ -125,7 +168,7 @@ Variable mb : Z.
 Variable ns : list cnode.
 Notation P last st := (run_pass m banks defs mb last ns st).
 
-(* once on a fixed point, every longer run stays there *)
+(* once on a fixed point, every longer run stays there (with an #assert: keeps going until its own last pass) *)
 Lemma sit2 k i max s : P true s = Ok (s, Resolved) -> (k + i = max)%nat ->
   exists n, loop2 m banks defs mb ns k i max s = Ok (s, n).
 Proof.
@@ -133,7 +176,9 @@ Proof.
   - rewrite Hfix. eauto.
   - destruct (Nat.eqb (S i) max) eqn:L.
     + rewrite Hfix. eauto.
-    + rewrite (run_pass_agree _ _ _ _ _ _ _ Hfix). rewrite Hfix. eauto.
+    + rewrite (run_pass_agree _ _ _ _ _ _ _ Hfix). destruct (has_assert ns); cbn [guess_res].
+      * apply IH; [exact Hfix|lia].
+      * rewrite Hfix. eauto.
 Qed.
 
 Lemma mono2 k k' i max max' st st' n : labels_ok2 ns st -> syms_distinct2 ns ->
@@ -149,7 +194,9 @@ Proof.
     assert (st' = st) by (eapply pass2_fix; eauto). subst st'.
     destruct (Nat.eqb (S i) max') eqn:L'.
     + rewrite Q. eauto.
-    + rewrite (run_pass_agree _ _ _ _ _ _ _ Q). rewrite Q. eauto.
+    + rewrite (run_pass_agree _ _ _ _ _ _ _ Q). destruct (has_assert ns); cbn [guess_res].
+      * apply sit2; [exact Q|lia].
+      * rewrite Q. eauto.
   - apply Nat.eqb_neq in L.
     assert (Nat.eqb (S i) max' = false) as L' by (apply Nat.eqb_neq; lia).
     rewrite L'.
@@ -164,4 +211,17 @@ Theorem budget_monotone2 b b' st st' n : labels_ok2 ns st -> syms_distinct2 ns -
   loop2 m banks defs mb ns b 0 b st = Ok (st', n) ->
   exists n', loop2 m banks defs mb ns b' 0 b' st = Ok (st', n').
 Proof. intros Hl Hd Hb Hle H. eapply mono2; eauto; lia. Qed.
+
+(* with an #assert the loop never stops early: the reported pass count is the budget itself *)
+Lemma loop2_assert_count : has_assert ns = true -> forall k i max st st' n,
+  loop2 m banks defs mb ns k i max st = Ok (st', n) -> (k + i = max)%nat -> (1 <= k)%nat -> n = max.
+Proof.
+  intros Ha. induction k as [|k IH]; intros i max st st' n H E Hk; [lia|]. cbn [loop2] in H.
+  destruct (Nat.eqb (S i) max) eqn:L.
+  - destruct (P true st) as [[s r]| |]; try discriminate. destruct r; [|discriminate].
+    inversion H; subst. apply Nat.eqb_eq in L. exact L.
+  - destruct (P false st) as [[s r]| |] eqn:Q; try discriminate.
+    unfold run_pass in Q. rewrite (pass2_guess_assert _ _ _ _ _ Ha _ _ _ _ _ _ Q) in H.
+    apply Nat.eqb_neq in L. eapply IH; eauto; lia.
+Qed.
 End Budget.
